@@ -131,4 +131,11 @@ PROPS = {
         trusted_base=COMMON_TB + ["Schema.schema_of_sdl / SchemaJson.schema_of_json are hand models of graphql_parser_conversion.rs and json_conversion.rs into a name-based, order-preserving abstract schema; tied by RunC07: the model predicts the SDL output exactly (corr), the JSON documents fed to the implementation map through the model of the JSON builder to the SDL builder's schema (corr_json_builder), and the harness's renderer agrees with the theorem's `render` (corr_render)", "serde's reading of the introspection document (both response shapes through the untagged IntrospectionResponse) and graphql_parser's reading of SDL", '`render` is the specification of what a spec-compliant server answers to the introspection query (section 4 of the GraphQL spec): kinds, ofType chains, interfaces, possibleTypes, enumValues, inputFields, isDeprecated / deprecationReason, isOneOf, root type names, extensions folded into their objects'],
         assumptions=['wf_sdl: the SDL builder does not panic (all names resolve), built-in scalars are not re-declared, one definition per object type', '`__` introspection types listed by a server are additional, unreferenced types: covered by the correspondence, not by the theorem'],
     ),
+    "C19": dict(
+        coq_props=['Properties/C19.v'],
+        run_modules=['RunC19.v'],
+        harness_cmd='c19',
+        trusted_base=COMMON_TB + ["Cli.v (options_of_args, dest_path, cli_generate) is a hand model of graphql_client_cli/src/generate.rs; tied by RunC19.corr: for the flags of each invocation the model's options fed to the model of the generator must reproduce the written file, and the model's destination must be the file that changed", "clap's parsing of the command line; rustfmt (the formatted file is re-parsed with syn, so only its token content is compared); std::path file_name / with_extension / join (modelled on component lists); the file system", 'the warning-suppression header is translated from generate.rs on every run'],
+        assumptions=["paths are relative, '/'-separated, with a non-empty last component"],
+    ),
 }
